@@ -12,6 +12,8 @@ import (
 	"fmt"
 	"path/filepath"
 
+	"github.com/q191201771/lal/pkg/base"
+
 	"github.com/q191201771/lal/pkg/httpflv"
 )
 
@@ -22,7 +24,7 @@ func (group *Group) startRecordFlvIfNeeded(nowUnix int64) {
 	}
 
 	// 构造文件名
-	filename := fmt.Sprintf("%s-%d.flv", group.streamName, nowUnix)
+	filename := fmt.Sprintf("%s-%d.flv", base.StreamNameAsPathElement(group.streamName), nowUnix)
 	filenameWithPath := filepath.Join(group.config.RecordConfig.FlvOutPath, filename)
 
 	// 初始化录制
